@@ -249,6 +249,14 @@ fn case(ctx: &mut Ctx, r: &mut Rng, n: usize) {
     if any_hollow {
         ctx.bucket("utxo.pure-ada-with-hollow-multiasset");
     }
+    // now and then the caller's list names a UTxO twice (two wallet queries merged): it is one UTxO, to be spent
+    // and counted once
+    if utxos_csl.len() >= 1 && s.r.below(12) == 0 {
+        let k = s.r.usize(utxos_csl.len());
+        let dup = utxos_csl.get(k);
+        utxos_csl.add(&dup);
+        ctx.bucket("utxo.listed-twice");
+    }
     let reps = if ctx.quick() { 4 } else { 12 };
     let mut results: BTreeSet<Vec<Vec<u8>>> = BTreeSet::new();
     let mut errs = 0;
